@@ -32,10 +32,16 @@ UsesOk(e, sch, IsUsed(_), IsUsedList(_)) ==
          /\ Chk(u.uses = IsUsed(u.f), <<"uses", u.f, "expected", IsUsed(u.f)>>)
          /\ Chk(u.list = IsUsedList(u.f), <<"uses_list", u.f, "expected", IsUsedList(u.f)>>)
 
+(* regex tokens carry the AST the generator rendered; they must be consistent with the          *)
+(* specification's renderer and scanner (else the generator, not the engine, is wrong)          *)
+RegexToksOk(ts) == \A i \in 1..Len(ts) : ts[i].k = "regex" => RegexTokOk(ts[i])
+StarOf(e) == IF "star" \in DOMAIN e THEN e.star ELSE -1
+
 CheckFilter(e) ==
   LET sch == Schs[e.sch]
-      r == ParseFilter(e.ts, sch, e.max)
-  IN /\ Chk(e.out # "panic", "parse panicked")
+      r == ParseFilterS(e.ts, sch, e.max, StarOf(e))
+  IN /\ Chk(RegexToksOk(e.ts), "generator: regex token inconsistent with RenderPat / ScanQuoted")
+     /\ Chk(e.out # "panic", "parse panicked")
      /\ Chk(r.ok = e.ok, <<"parse verdict: spec says ok =", r.ok>>)
      /\ r.ok =>
           /\ Chk(e.ast = [c |-> "deep"] \/ AstJson(r.node) = e.ast, <<"ast json, expected", AstJson(r.node)>>)
@@ -87,12 +93,22 @@ CheckCanon(e) ==
                   <<"structurally different filters must serialize differently; same structure =", same>>)
            /\ Chk(e.eq12 => (same /\ e.other.hash = v1.hash), "equal ASTs must have equal JSON and hash")
 
+(* C11: the compiled-size limit is opaque; only its monotone consequences are specified: a      *)
+(* pattern accepted under a limit is accepted under every larger one, every generated pattern   *)
+(* fits the default (results are listed in ascending order of the limit)                        *)
+CheckReLimit(e) ==
+  /\ Chk(RegexTokOk(e.tok), "generator: regex token inconsistent")
+  /\ \A i \in 1..Len(e.res) : Chk(e.res[i].out = "ok", "parser panicked under a size limit")
+  /\ \A i \in 1..(Len(e.res) - 1) : Chk(e.res[i].ok => e.res[i + 1].ok, <<"size limit not monotone at", i>>)
+  /\ Chk(e.res[Len(e.res)].ok, "valid pattern rejected under the default size limit")
+
 Init == l = 1 /\ nbad = 0
 Next == /\ l <= Len(Rec)
         /\ LET e == Rec[l]
                good == IF e.ev = "filter" THEN CheckFilter(e)
                        ELSE IF e.ev = "value" THEN CheckValue(e)
                        ELSE IF e.ev = "canon" THEN CheckCanon(e)
+                       ELSE IF e.ev = "relimit" THEN CheckReLimit(e)
                        ELSE Chk(FALSE, "unknown event")
            IN nbad' = IF good THEN nbad ELSE nbad + 1
         /\ l' = l + 1
